@@ -116,3 +116,16 @@ func ReceiverRecvFile(seed int32, dir, name string, mode int32, mtime int64, wir
 	err = rt.VerifRecvFile1(f)
 	return len(wire) - rd.Len(), err
 }
+
+// MuxReader wraps r in the client's demultiplexer (rsyncwire.MultiplexReader).
+func MuxReader(r io.Reader) io.Reader {
+	return &rsyncwire.MultiplexReader{Env: &rsyncos.Env{Stdout: io.Discard, Stderr: io.Discard}, Reader: r}
+}
+
+// MuxFrame returns what rsyncwire.MultiplexWriter.WriteMsg writes for (tag, p).
+func MuxFrame(tag uint8, p []byte) []byte {
+	var buf bytes.Buffer
+	w := &rsyncwire.MultiplexWriter{Writer: &buf}
+	w.WriteMsg(tag, p)
+	return buf.Bytes()
+}
